@@ -391,7 +391,7 @@ pub fn run(opts: &Opts) {
     rep.set("sum:collision_table_entries", json!(table.len()));
     rep.set(
         "rule",
-        json!("piece counts 0..8 (monomorphised) x 0..4 fragments per piece x fragment lengths {0,1,7,8,9,63,64,65,255,256,600} x contents {zeros, bytes shaped like LE64 lengths, ff, random}, plus random lists and boundary-shifted / piece-dropped variants with identical concatenation; oracle = independent encoder over whole pieces, independent decoder, and a table of all encodings seen (two different piece lists must never collide); a recording WriteBytes must receive the same byte sequence as a Vec; distinct = distinct (fragment shape, piece contents)"),
+        json!("(adapters: every second grid point and every fourth dense length is repeated under the suffixed payload type so the header piece changes within the process) piece counts 0..8 (monomorphised) x 0..4 fragments per piece x fragment lengths {0,1,7,8,9,63,64,65,255,256,600} x contents {zeros, bytes shaped like LE64 lengths, ff, random}, plus random lists and boundary-shifted / piece-dropped variants with identical concatenation; oracle = independent encoder over whole pieces, independent decoder, and a table of all encodings seen (two different piece lists must never collide); a recording WriteBytes must receive the same byte sequence as a Vec; distinct = distinct (fragment shape, piece contents)"),
     );
     rep.set("adapters", json!("the private digest/MAC/stream-verifier adapters of all six backends are observed through the tag / signature: message, footer and assertion lengths from {0,1,7,8,9,63,64,65,127,128,129,255,256,257,600,5000}, local tokens compared byte for byte with the reference (independent PAE), signatures verified by an independent verifier over the independent PAE"));
     rep.finish(opts);
